@@ -123,6 +123,10 @@ enum Leaf {
     BneMinus,
     /// `beq +` + `nop`: `+` is the end of the enclosing block
     BeqPlus,
+    /// a branch over 50 `lda late_zp` (a zero-page constant that is only defined at the end of main.asm): one
+    /// intermediate pass sees the branch too far (the label still has the value from the pass in which the
+    /// operands were taken to be absolute); the program is valid
+    TransientError,
 }
 
 #[derive(Clone, PartialEq, Eq, Hash, Debug)]
@@ -219,6 +223,7 @@ impl Leaf {
             Leaf::LdaTop => "lda#top-const",
             Leaf::BneMinus => "bne-minus",
             Leaf::BeqPlus => "beq-plus",
+            Leaf::TransientError => "transient-error",
             Leaf::JmpOuter => "jmp-outer",
             Leaf::JmpFwd => "jmp-fwd",
             Leaf::InnerLabel => "inner-label",
@@ -289,8 +294,9 @@ fn is_base(l: &Level) -> bool {
     )
 }
 
-const LEAVES: [Leaf; 14] = [
+const LEAVES: [Leaf; 15] = [
     Leaf::Nop,
+    Leaf::TransientError,
     Leaf::LdaTop,
     Leaf::BneMinus,
     Leaf::BeqPlus,
@@ -426,6 +432,19 @@ impl<'n> Builder<'n> {
             Leaf::LdaTop => vec![ins("lda", Form::Imm, id("c1"))],
             Leaf::BneMinus => vec![imp("dex"), ins("bne", Form::Plain, id("-"))],
             Leaf::BeqPlus => vec![ins("beq", Form::Plain, id("+")), imp("nop")],
+            Leaf::TransientError => {
+                let mut v = vec![Stmt::Braces({
+                    let mut b = vec![ins("bne", Form::Plain, id("tskip"))];
+                    for _ in 0..50 {
+                        b.push(ins("lda", Form::Plain, id("late_zp")));
+                    }
+                    b.push(label("tskip"));
+                    b.push(imp("nop"));
+                    b
+                })];
+                v.push(imp("inx"));
+                v
+            }
             Leaf::JmpOuter => vec![ins("jmp", Form::Plain, id("outer"))],
             Leaf::JmpFwd => vec![ins("jmp", Form::Plain, id("fwd"))],
             Leaf::InnerLabel => vec![Stmt::Braces(vec![
@@ -643,6 +662,19 @@ impl<'n> Builder<'n> {
                 if let Some(cn) = fc_name {
                     out.push(ins("lda", Form::Imm, id(&cn)));
                 }
+                // imports compose: a name that the imported file has itself imported (the next level is an import whose
+                // label is visible at that file's top level) comes along with `*`
+                if let Some(Level::Import { imp: inner, .. }) = self.nest.levels.get(i + 1) {
+                    let inner_visible = matches!(inner, Imp::Star | Imp::Name | Imp::Multi);
+                    let prefix = match kind {
+                        Imp::Star => Some(String::new()),
+                        Imp::Ns => Some(format!("{}.", ns)),
+                        _ => None,
+                    };
+                    if let (true, Some(prefix)) = (inner_visible, prefix) {
+                        out.push(ins("jsr", Form::Plain, id(&format!("{}fl{}", prefix, i + 1))));
+                    }
+                }
                 out
             }
         }
@@ -665,6 +697,7 @@ fn build(nest: &Nest) -> Prog {
     main.extend(b.after);
     main.push(konst("late1", num(1)));
     main.push(konst("late0", num(0)));
+    main.push(konst("late_zp", lit("$10")));
     Prog { main, files: b.files }
 }
 
